@@ -4,7 +4,7 @@ HERE=$(cd "$(dirname "$0")/.." && pwd); cd "$HERE" || exit 2
 P="$1"; shift
 WT=$(mktemp -d /tmp/wcverif-try-XXXXXX); rmdir "$WT"
 git -C /repo worktree add -q "$WT" HEAD || exit 2
-git -C "$WT" apply "$P" || { git -C /repo worktree remove --force "$WT"; exit 2; }
+git -C "$WT" apply "$P" 2>/dev/null || git -C "$WT" apply --3way "$P" >/dev/null 2>&1 || { git -C /repo worktree remove --force "$WT"; exit 2; }
 for c in "$@"; do
   VERIF_REPO="$WT" VERIF_EVIDENCE_DIR="$WT.ev" timeout 1800 bin/vcheck "$c" --tier quick 2>&1 | grep -E "^VIOLATION|tier=|HARNESS|problem" | cut -c1-400 | tail -4
 done
